@@ -1,4 +1,4 @@
-import Tickit.Proof.RBFlushSpec
+import Tickit.Proof.RBFlushTextRun
 /-
   C04 — flushing a render buffer reproduces its content on the terminal exactly once.
 
@@ -143,11 +143,49 @@ def FlushSpec (rb : RB) : Prop :=
     (flushToTerm rb).out = .ok ∧
     ∀ l c, cellOK (want rb l c) (t.cells l c) ((t.run (flushToTerm rb).reqs).cells l c) = true
 
-/-- **flush_spec_notext**: `FlushSpec` for every well-formed buffer without TEXT runs — skip, erase (both `moveend`
-    choices and every oracle for the cursor after `erasech(…, MAYBE)`), batched line cells and one-column char cells,
-    with the cursor tracker's goto elision. -/
-theorem flush_spec_notext (rb : RB) (hwf : FlushWF rb)
-    (hnt : ∀ line col, (rb.cell line col).state ≠ .text) : FlushSpec rb :=
-  fun t => flush_spec_of_text hwf (fun line col _ _ _ _ hs => absurd hs (hnt line col)) t
+/-- **flush_spec**: `FlushSpec` for every well-formed buffer (`FlushWF`: every line is tiled by runs, LINE and CHAR runs
+    have one column, line masks are 1 … 255, every TEXT run lies inside a text the width counter accepts, and — the one
+    hypothesis that excludes a known finding — every CHAR cell holds a code point that is one column wide).  Texts may
+    mix single-width, double-width and zero-width characters and a run may begin or end at *any* column of its text,
+    including the middle of a double-width character (its visible half is blanked).  Every prior grid, cursor
+    position, terminal pen, oracle for the cursor after `erasech(…, MAYBE)` and print path. -/
+theorem flush_spec (rb : RB) (hwf : FlushWF rb) : FlushSpec rb :=
+  fun t => flush_spec_of_text hwf (fun _ _ h1 h2 h3 hr hs => text_run ⟨h1, h2⟩ h3 hr hs) t
+
+/-- Everything to the right of a text lands in its own column: after the requests of a TEXT run the terminal cursor
+    has advanced by exactly the run's columns, whatever part of the text the run shows. -/
+theorem text_run_advances (rb : RB) (line col : Int) (hl : 0 ≤ line ∧ line < rb.lines) (h0 : 0 ≤ col)
+    (hr : RunAt rb line col) (hs : (rb.cell line col).state = .text) (t : GridTerm)
+    (ht : t.line = line ∧ t.col = col) :
+    (t.run (textReqs (rb.cell line col))).col = col + (rb.cell line col).cols :=
+  (text_run hl h0 hr hs t ht).2
+
+/-! ### Non-vacuity: a buffer with a text cut inside a double-width character on both sides -/
+
+/-- `"x" U+FF21 "yz" U+4E00` at column 0 of a 1×8 buffer, then `Q` over column 1 (left half of U+FF21) and an erase over
+    columns 6-7 (right half of U+4E00 and beyond): runs `T1 H1 T4 E2`, the text run at columns 2-5 starts inside a
+    double-width character and ends inside another. -/
+def exampleRB : RB :=
+  eraseAt (charAt (textAt (RB.new 1 8 0 0) 0 0 [0x78, 0xef, 0xbc, 0xa1, 0x79, 0x7a, 0xe4, 0xb8, 0x80]) 0 1 0x51) 0 6 2
+
+theorem exampleRB_requests :
+    (flushToTerm exampleRB).reqs =
+      [.goto 0 0, .setpen Pen.empty, .print [0x78, 0xef, 0xbc, 0xa1, 0x79, 0x7a, 0xe4, 0xb8, 0x80] 0 1,
+       .setpen Pen.empty, .print [0x51] 0 1,
+       .setpen Pen.empty, .erasech 1 .yes, .print [0x78, 0xef, 0xbc, 0xa1, 0x79, 0x7a, 0xe4, 0xb8, 0x80] 4 2,
+       .erasech 1 .yes,
+       .setpen Pen.empty, .erasech 2 .maybe] := by
+  decide +kernel
+
+/-- The hypotheses of `flush_spec` hold of the example (decided by `flushWFb`). -/
+theorem exampleRB_wf : FlushWF exampleRB := flushWF_of_flushWFb (by decide +kernel)
+
+/-- … so `flush_spec` applies to it: a text cut inside double-width characters on both sides is flushed correctly. -/
+example : FlushSpec exampleRB := flush_spec exampleRB exampleRB_wf
+
+/-- A second instance: erase followed by content (`moveend = YES`), an erase before a skip (`MAYBE`, any oracle), a
+    one-column char and a batch of line cells. -/
+example : FlushSpec (hlineAt (eraseAt (eraseAt (charAt (RB.new 2 6 0 0) 0 2 0x41) 0 0 2) 0 3 1) 1 1 4 1 3) :=
+  flush_spec _ (flushWF_of_flushWFb (by decide +kernel))
 
 end Tickit.Props.C04
